@@ -661,3 +661,154 @@ def run(ctx):
     for ob, k in spec_bad.items():
         ctx.ob(ob, k == 0, "search", f"{k} failing inputs" if k else "")
     return bad, spec_bad
+
+
+# ---------------------------------------------------------------------------
+# round-4 searches: second controlled_by, dagger of symbolic parameters, + with permuted wire names
+
+CTRL2_SPEC = r'''
+def check_second_controlled_by(build, base, n, old, extra):
+    """`build()` = a gate that already carries the controls `old`; `base()` = the same gate without
+    them.  Accepted: the documented RuntimeError, or the base operator controlled on ALL controls."""
+    try:
+        g = build().controlled_by(*extra)
+    except RuntimeError:
+        return None
+    B = full(base(), n)
+    cs = list(old) + list(extra)
+    E = np.eye(2 ** n, dtype=complex)
+    idx = [i for i in range(2 ** n) if all((i >> (n - 1 - c)) & 1 for c in cs)]
+    for i in idx:
+        for j in idx: E[i, j] = B[i, j]
+    if g.is_controlled_by and not set(old) <= set(g.control_qubits) or not np.allclose(full(g, n), E, atol=1e-9):
+        return ("controlled_by_twice:" + type(base()).__name__,
+                f"a second controlled_by{tuple(extra)} on a gate already controlled on {tuple(old)} returns {type(g).__name__} on controls {g.control_qubits} targets {g.target_qubits}: the old controls are dropped")
+    return None
+
+def check_symbolic_dagger(make, prep, use_invert):
+    """qubit 0 is |1>, measured with collapse; G = make(outcome symbol) acts on the other qubits, then
+    its dagger (gate.dagger() or via Circuit.invert()): the state must be the one without the pair."""
+    def circ(with_pair):
+        c = Circuit(3, density_matrix=True)
+        c.add(gates.X(0))
+        for p in prep: c.add(p())
+        r = c.add(gates.M(0, collapse=True))
+        if with_pair:
+            g = make(r.symbols[0])
+            c.add(g)
+            if use_invert:
+                s = Circuit(3, density_matrix=True); s.add(g)
+                c.add(s.invert().queue[0])
+            else:
+                c.add(g.dagger())
+        return np.asarray(nb.execute_circuit(c, nshots=3).state())
+    ref = circ(False)
+    try:
+        got = circ(True)
+    except Exception:
+        return None   # the class refuses symbolic parameters
+    d = float(np.abs(got - ref).max())
+    if d > 1e-9:
+        return ("dagger_symbolic", f"a gate whose parameter is a sympy expression of a measurement outcome, followed by its dagger, changes the state by {d:.3e}")
+    return None
+
+def check_add_wire_names(c1, c2):
+    """accepted: the documented ValueError, or every gate of c2 on the wire with the same NAME."""
+    n = c1.nqubits
+    try:
+        r = c1 + c2
+    except ValueError:
+        return None
+    names1, names2 = c1.wire_names, c2.wire_names
+    exp = np.eye(2 ** n, dtype=complex)
+    for g in c1.queue: exp = full(g, n) @ exp
+    for g in c2.queue:
+        exp = full(g.on_qubits({q: names1.index(names2[q]) for q in range(n)}), n) @ exp
+    got = np.eye(2 ** n, dtype=complex)
+    for g in r.queue: got = full(g, n) @ got
+    if list(r.wire_names) != list(names1) or not np.allclose(got, exp, atol=1e-9):
+        return ("add:wire_names", f"c1 + c2 with wires {names1} and {names2}: gates of c2 are not on the wires with the same names")
+    return None
+'''
+
+
+def round4_searches(ctx):
+    rng = ctx.rng
+    infos = {k: v for k, v in qgates.gate_infos().items() if v.generic and v.nq >= 1}
+    code = compile(SPEC + HEAD + CTRL2_SPEC, "<C05 round-4 spec>", "exec")
+    bad = {"C05_search_second_controlled_by": 0, "C05_search_symbolic_dagger": 0, "C05_search_add_wire_names": 0}
+
+    def run_case(ob, src, call):
+        env = {}
+        exec(code, env)  # noqa: S102 - own text, identical to the replay
+        exec(src + f"msg = {call}\n", env)  # noqa: S102
+        ctx.stat("round4:" + call.split("(")[0])
+        ctx.case(("round4", call.split("(")[0], src[:120], call[:120]))
+        msg = env["msg"]
+        if msg is not None:
+            bad[ob] += 1
+            ctx.fail(msg[0], msg[1], SPEC + HEAD + CTRL2_SPEC + src + f"msg = {call}\nprint(msg)\nsys.exit(1 if msg else 0)\n",
+                     observed=msg[1][:300], broken=[ob])
+
+    # (1) a second controlled_by on a gate that already has controls, every class
+    for name, info in sorted(infos.items()):
+        vals = [round(rng.uniform(0.2, 1.4), 3) for _ in range(info.np)]
+        probe = info.make(list(range(info.nq)), vals)
+        builtin = len(probe.control_qubits)
+        for nold in ((0,) if builtin else (1, 2, 3)):
+            for nextra in (1, 2):
+                if rng.random() < (0.0 if ctx.thorough else 0.35) and nold != 2:
+                    continue
+                n = info.nq + nold + nextra
+                qs = rng.sample(range(n), info.nq)
+                rest = [q for q in range(n) if q not in qs]
+                rng.shuffle(rest)
+                old, extra = rest[:nold], rest[nold:nold + nextra]
+                mk = f"gates.{name}(*{qs}, *{vals})"
+                if builtin:
+                    src = f"build = lambda: {mk}\nbase = lambda: {mk}\n"
+                    oldc = []
+                else:
+                    src = f"build = lambda: {mk}.controlled_by(*{old})\nbase = lambda: {mk}\n"
+                    oldc = old
+                run_case("C05_search_second_controlled_by", src, f"check_second_controlled_by(build, base, {n}, {oldc}, {extra})")
+
+    # (2) dagger / invert of a gate whose parameter is a sympy expression of a measurement outcome
+    for name, info in sorted(infos.items()):
+        if not info.np or info.nq > 2 or info.name == "MS":
+            continue
+        probe = info.make(list(range(info.nq)), [0.3] * info.np)
+        if probe.control_qubits and info.nq > 2:
+            continue
+        qs = [1, 2][: info.nq] if rng.random() < 0.5 else [2, 1][: info.nq]
+        others = [round(rng.uniform(0.2, 1.4), 3) for _ in range(info.np - 1)]
+        coef = round(rng.uniform(0.3, 1.2), 3)
+        pos = rng.randrange(info.np)
+        args = others[:pos] + ["SYM"] + others[pos:]
+        argtxt = ", ".join(f"{coef} * m" if a == "SYM" else repr(a) for a in args)
+        src = (f"make = lambda m: gates.{name}(*{qs}, {argtxt})\n"
+               "prep = [lambda: gates.H(1), lambda: gates.RY(2, 0.7), lambda: gates.CNOT(1, 2)]\n")
+        for use_invert in (False, True):
+            run_case("C05_search_symbolic_dagger", src, f"check_symbolic_dagger(make, prep, {use_invert})")
+
+    # (3) c1 + c2 with the same wire names in another order (2-cycles and 3-cycles, strings and ints)
+    for it in range(24 if ctx.thorough else 10):
+        n = rng.choice([2, 3, 3, 4])
+        names1 = [["a", "b", "c", "d"], [7, 3, 5, 11]][it % 2][:n]
+        names2 = list(names1)
+        if n >= 3 and it % 3 != 0:
+            i, j, k = rng.sample(range(n), 3)
+            names2[i], names2[j], names2[k] = names1[j], names1[k], names1[i]
+        else:
+            i, j = rng.sample(range(n), 2)
+            names2[i], names2[j] = names1[j], names1[i]
+        lines_ = [f"c1 = Circuit({n}, wire_names={names1!r})", f"c2 = Circuit({n}, wire_names={names2!r})"]
+        for cname in ("c1", "c2"):
+            for _ in range(rng.randint(1, 3)):
+                a, b = rng.sample(range(n), 2)
+                t = round(rng.uniform(0.2, 2.9), 3)
+                lines_.append(f"{cname}.add(" + rng.choice([f"gates.RX({a}, {t})", f"gates.CNOT({a}, {b})", f"gates.H({a})", f"gates.CRY({b}, {a}, {t})", f"gates.RY({b}, {t}).controlled_by({a})"]) + ")")
+        run_case("C05_search_add_wire_names", "\n".join(lines_) + "\n", "check_add_wire_names(c1, c2)")
+
+    for ob, k in bad.items():
+        ctx.ob(ob, k == 0, "search", f"{k} failing inputs" if k else "")
